@@ -405,6 +405,62 @@ def rule_total(ctx, R):
 
 
 def rule_tables(ctx, R):
+    # the pre-pass files the last position of every end syllable under the class of its start syllable:
+    # 엉 -> 혀 (0), 앙 앗 -> 하 (1), 읏 읍 윽 -> 흐 (2)
+    pb0 = ctx.fb.bodies.get(PARSE)
+    if pb0 is not None:
+        from .paths import acyclic_paths as _ap, PathOriginsOv as _PO, simplify as _simp
+        cfg0 = normal_cfg(pb0)
+        stores = []
+        for bi_, blk_ in enumerate(pb0.blocks):
+            for si_, st_ in enumerate(blk_["stmts"]):
+                if st_["k"] == "assign" and any(isinstance(e, dict) and "i" in e for e in st_["p"]["proj"]) and pb0.lty(st_["p"]["l"]).startswith("[usize; 3]"):
+                    stores.append((bi_, si_, [e["i"] for e in st_["p"]["proj"] if isinstance(e, dict) and "i" in e][0]))
+        if R.anchor(len(stores) == 1, "prepass_store", "the store into the table of last end-syllable positions"):
+            sb_, ss_, il_ = stores[0]
+            loops0 = {}
+            for be in cfg0.back_edges():
+                loops0.setdefault(be[1], set()).update(cfg0.natural_loop(be))
+            lp = min((bl for h, bl in loops0.items() if sb_ in bl), key=len)
+            h0 = [h for h, bl in loops0.items() if bl is lp][0]
+            got_c = {}
+            for ch in "엉앙앗읏읍윽":
+                vals = set()
+                for p_ in _ap(cfg0, h0, [sb_], 2000):
+                    if any(x not in lp for x in p_):
+                        continue
+                    org_ = _PO(pb0, ctx.fb, p_)
+                    r_ = Roles(pb0, ctx.fb, param_roles={1: "CODE"}, org=org_)
+                    env = {"kind": 10, "ch": ch}
+                    ok_ = True
+                    for i_, b2 in enumerate(p_[:-1]):
+                        t_ = pb0.blocks[b2]["term"]
+                        if t_["k"] != "switch":
+                            continue
+                        try:
+                            v_ = _syl_eval(_simp(org_.of_operand(t_["x"], b2, "t")), env, r_)
+                        except _SylUnknown:
+                            continue
+                        v_ = int(v_) if isinstance(v_, bool) else v_
+                        if not isinstance(v_, int):
+                            continue
+                        tk_ = None
+                        for a_, bb_ in t_["arms"]:
+                            if int(a_) == v_:
+                                tk_ = bb_
+                        if tk_ is None:
+                            tk_ = t_["otherwise"]
+                        if tk_ != p_[i_ + 1]:
+                            ok_ = False
+                            break
+                    if ok_:
+                        try:
+                            vals.add(int(_syl_eval(_simp(org_.of_local(il_, sb_, ss_)), env, r_)))
+                        except _SylUnknown as e_:
+                            vals.add("unknown: %s" % e_)
+                got_c[ch] = sorted(vals, key=str)
+            want_c = {"엉": [0], "앙": [1], "앗": [1], "읏": [2], "읍": [2], "윽": [2]}
+            R.check(got_c == want_c, "tables:end_classes", "each end syllable is recorded under the class of its start syllable (엉:0, 앙 앗:1, 읏 읍 윽:2): %s" % got_c, pb0.span)
     # a heart is recognised by equality with an entry of the heart table (the lookup closure compares, nothing else)
     pb_ = ctx.fb.bodies.get(PARSE)
     if pb_ is not None:
@@ -857,6 +913,64 @@ def rule_tree(ctx, R):
                     want1[(kind, ch)] = {("STATE:=1",)}
         bad = {"%d/%s" % k: sorted(v) for k, v in got1.items() if v != want1.get(k)}
         R.check(not bad and not problems1, "tree:syllables", "state 1: 엉 closes a 혀-command as kind 0; 앙/앗 close a 하-command as kind 1/2; 읏/읍/윽 close a 흐-command as kind 3/4/5; the dot count restarts and the parser returns to state 0; any other character keeps state 1 (decision table over pending kind x character)", None, {"differs": bad, "undecided": problems1[:4]})
+    # a command start: a one-syllable command (형 항 핫 흣 흡 흑) is complete at once (state 0), a start syllable 혀 하 흐
+    # opens the syllable part (state 1); only the latter can be skipped (no end syllable later in the text)
+    from .paths import acyclic_paths as _ap, PathOriginsOv as _PO, simplify as _simp
+    st_entry = None
+    for gb in sorted(M.loop):
+        tt = b.blocks[gb]["term"]
+        if tt["k"] == "switch":
+            for s_ in cfg.succ[gb]:
+                lab = ev0.generic_edge(gb, tt, s_) or ""
+                if lab.startswith("SW[DISCR(str::find(K'형항핫흣흡흑혀하흐',") and lab.endswith("=1"):
+                    st_entry = s_
+    if R.anchor(st_entry is not None and T.state is not None, "tree:entry:start", "the branch that handles a command-start syllable"):
+        ov_ = {T.state: ("role", "STATE")}
+        got_s, prob_s = {}, []
+        paths_ = _ap(cfg, st_entry, [M.head], 6000)
+        for ch in "형항핫흣흡흑혀하흐":
+            env = {"kind": 10, "ch": ch}
+            vals = set()
+            for p_ in paths_:
+                org_ = _PO(b, fb, p_, overrides=ov_)
+                r_ = Roles(b, fb, param_roles={1: "CODE"}, org=org_)
+                ok_ = True
+                for i_, bi_ in enumerate(p_[:-1]):
+                    t_ = b.blocks[bi_]["term"]
+                    if t_["k"] != "switch":
+                        continue
+                    try:
+                        v_ = _syl_eval(_simp(org_.of_operand(t_["x"], bi_, "t")), env, r_)
+                    except _SylUnknown:
+                        continue
+                    v_ = int(v_) if isinstance(v_, bool) else v_
+                    if not isinstance(v_, int):
+                        continue
+                    tk_ = None
+                    for a_, bb_ in t_["arms"]:
+                        if int(a_) == v_:
+                            tk_ = bb_
+                    if tk_ is None:
+                        tk_ = t_["otherwise"]
+                    if tk_ != p_[i_ + 1]:
+                        ok_ = False
+                        break
+                if not ok_:
+                    continue
+                assigned = None
+                for bi_ in p_:
+                    for si_, st_ in enumerate(b.blocks[bi_]["stmts"]):
+                        if st_["k"] == "assign" and not st_["p"]["proj"] and st_["p"]["l"] == T.state:
+                            try:
+                                assigned = int(_syl_eval(_simp(org_.of_rvalue(st_["r"], bi_, si_)), env, r_))
+                            except _SylUnknown as e_:
+                                prob_s.append("%s: %s" % (ch, e_))
+                vals.add(("start" if M.start[0] in p_ else "skip", assigned))
+            got_s[ch] = vals
+        want_s = {ch: {("start", 0)} for ch in "형항핫흣흡흑"}
+        want_s.update({ch: {("start", 1), ("skip", None)} for ch in "혀하흐"})
+        bad_s = {k: sorted(map(str, v)) for k, v in got_s.items() if v != want_s[k]}
+        R.check(not bad_s and not prob_s, "tree:start", "a one-syllable command leaves the parser in state 0 and is never skipped; 혀/하/흐 enter state 1 or are skipped as a whole", None, {"differs": bad_s, "undecided": prob_s[:3]})
     tables = {}
     for h in ("question", "bang", "heart"):
         if not R.anchor(len(entries.get(h, [])) == 1, "tree:entry:" + h, "the branch of the area state that handles %s" % h):
